@@ -169,7 +169,7 @@ PROPS = {
                       "(checker) and holds in the model for eth0 only (the code fills defaults for eth0 only).",
     },
     "C01": {
-        "pkg": "./pool/", "test": "TestVerif_Pool", "n_quick": 400, "n_thorough": 20000, "env": {"VERIF_PROP": "C01"},
+        "pkg": "./pool/", "test": "TestVerif_Pool", "n_quick": 400, "n_thorough": 20000, "retry_mismatch": True, "env": {"VERIF_PROP": "C01"},
         "rule": "histories of 8..48 stimuli (ADD incl. repeated and pre-cancelled ADDs pinned as the daemon pins them, cancel, DEL, completion of a blocked cloud call with "
                 "success / error before effect / error after effect / partial / quota code / exhaustion code, clock advance 100 ms..10 min, balancer pass, remote removal of an address, "
                 "metadata sync) over 1..3 interfaces (secondary/trunk, some already attached), IPv4 / IPv6 / dual, cap 1..5, batch 1..3, both selection policies, through the real eni.Manager + eni.Local "
@@ -189,7 +189,7 @@ PROPS = {
         "level_note": "Trusted: Coq kernel, extraction, driver, harness, synctest. Partial: interleavings inside a quiescence interval are validated through their outcome; the second-address-on-repeat-ADD finding (known finding) is a Manager-level behaviour outside the per-interface theorem.",
     },
     "C06": {
-        "pkg": "./pool/", "test": "TestVerif_Pool", "n_quick": 400, "n_thorough": 16000, "env": {"VERIF_PROP": "C06"},
+        "pkg": "./pool/", "test": "TestVerif_Pool", "n_quick": 400, "n_thorough": 16000, "retry_mismatch": True, "env": {"VERIF_PROP": "C06"},
         "rule": "as C01 with a fault-free cloud, frequent balancer passes, pools near cap, min>max and max=0 configurations; every cloud call is judged at call time against the observer's ledger "
                 "(addresses the cloud has on the interface + asked <= cap; interfaces <= slots; no unassign of a held or primary address; no delete of an interface with a held address, a waiting request, or of trunk/erdma type; "
                 "Dispose marks only addresses nobody holds). non-trivial = at least one unassign or delete call was made; distinct = distinct input vectors",
@@ -203,7 +203,7 @@ PROPS = {
         "level_note": "Trusted as C01. The window between DeleteNetworkInterface's start and end (a popped request's worker may still take an address) is stated in DESIGN.md; the theorem is about the call instant.",
     },
     "C07": {
-        "pkg": "./pool/", "test": "TestVerif_Pool", "n_quick": 400, "n_thorough": 20000, "env": {"VERIF_PROP": "C07"},
+        "pkg": "./pool/", "test": "TestVerif_Pool", "n_quick": 400, "n_thorough": 20000, "retry_mismatch": True, "env": {"VERIF_PROP": "C07"},
         "rule": "as C01 with fault placements on a third of the cloud calls (error before effect, error after effect, partial result, quota and exhaustion codes) combined with cancellations and remote removals; "
                 "at every quiescent point the snapshot is judged against the ledger: nothing the cloud assigned is untracked; with no call in flight what is tracked as valid is what the cloud has; no owner without holder; "
                 "no create/assign call before the back-off deadline implied by earlier answers. non-trivial = at least one cloud call failed; distinct = distinct input vectors",
@@ -315,7 +315,7 @@ PROPS = {
         "level_note": "Trusted: Coq kernel, extraction, driver, harness, the sandbox kernel. Partial: three of the four datapaths are judged on their generators' output only.",
     },
     "C04": {
-        "pkg": "./svc/", "test": "TestVerif_Svc", "n_quick": 400, "n_thorough": 20000, "env": {"VERIF_PROP": "C04"},
+        "pkg": "./svc/", "test": "TestVerif_Svc", "n_quick": 400, "n_thorough": 20000, "retry_mismatch": True, "env": {"VERIF_PROP": "C04"},
         "rule": "histories of 10..40 stimuli on the real networkService (AllocIP / ReleaseIP / GetIPInfo called directly) over the real pool: ADD / DEL / GET for 1..4 pods with current, older and newer "
                 "sandbox ids, requests overlapping the in-flight request of the same pod (cloud calls held open), cancellation of a request's context, cloud call outcomes, pods vanishing, GC passes. "
                 "Replies, store operations, per-interface pool calls and snapshots of pool + store at every quiescent point are compared with the model. non-trivial = at least one request was rejected as "
@@ -332,7 +332,7 @@ PROPS = {
         "level_note": "Trusted: Coq kernel, extraction, driver, harness. 'A failed ADD hands back every address' is proved per interface (roll-back inside Local.commit); the Manager-level path is partial (checked on the implementation's snapshots).",
     },
     "C05": {
-        "pkg": "./svc/", "test": "TestVerif_Svc", "n_quick": 400, "n_thorough": 20000, "env": {"VERIF_PROP": "C05"},
+        "pkg": "./svc/", "test": "TestVerif_Svc", "n_quick": 400, "n_thorough": 20000, "retry_mismatch": True, "env": {"VERIF_PROP": "C05"},
         "rule": "as C04 with crash points: the daemon is crashed (store file copied as it is on disk, every goroutine stopped, blocked cloud calls answered without effect) at quiescent points and while a handler is parked "
                 "before / after the disk write of its Put or Delete; a new pool is built from what the cloud has attached and the reopened store (daemon's filterENINotFound + Local.load), and the run continues. "
                 "After every restart the acknowledged allocations must still be owned by their pods and every owner must have a record. non-trivial = at least one crash with an acknowledged allocation; distinct = distinct input vectors",
@@ -348,7 +348,7 @@ PROPS = {
         "level_note": "Trusted: Coq kernel, extraction, driver, harness, bolt. Inv (load_slot ...) is validated by the correspondence runs, not proved (partial); the stale-record finding is a known finding.",
     },
     "C09": {
-        "pkg": "./svc/", "test": "TestVerif_Svc", "n_quick": 400, "n_thorough": 20000, "env": {"VERIF_PROP": "C09"},
+        "pkg": "./svc/", "test": "TestVerif_Svc", "n_quick": 400, "n_thorough": 20000, "retry_mismatch": True, "env": {"VERIF_PROP": "C09"},
         "rule": "as C04 with frequent GC passes over stores with records of running pods, exited sandboxes, pods deleted from the API, interfaces that are not on the machine, API failures and injected release failures; "
                 "after every pass the store and the pool are compared with the model's pass. non-trivial = at least one pass ran with a vanished pod's record in the store; distinct = distinct input vectors",
         "trusted": ["testing/synctest virtual clock and quiescence detection (go1.26.8); gcPods is only started while no RPC holds the service's read lock (a goroutine parked on sync.RWMutex is not durably blocked for synctest)",
@@ -397,6 +397,11 @@ def sig_C14(ins, outs):
     if fn == "4":
         w, net, plen = int(ins[1]), int(ins[2]), int(ins[3])
         top = (net >> (w - plen) << (w - plen)) >> (w - 8) if plen <= w else 0
+        if w == 128 and plen + 2 <= w and outs == ["0"]:
+            # the subnet's last address has the IPv4-mapped form ::ffff:a.b.c.d
+            last = (net >> (w - plen) << (w - plen)) | ((1 << (w - plen)) - 1)
+            if last >> 48 == 0 and (last >> 32) & 0xffff == 0xffff:
+                return "C14:gateway:empty-for-ipv6-subnet-whose-last-address-is-ipv4-mapped"
         if plen + 2 <= w and outs == ["0"] and top == 0:
             return "C14:gateway:empty-for-subnet-with-leading-zero-byte"
         return "C14:gateway:w%d" % w
